@@ -207,3 +207,48 @@ def normalise_worker(events):
             yield {"ev": "Sleep", "t": t, "dns": max(-1, min(BIG, int(e["d"])))}
         elif ev == "SimError":
             yield {"ev": "SimError", "t": 0, "err": e["err"]}
+
+
+def normalise_filter(events):
+    """Normalised events for Trace_Filter.tla (C26).  String members are replaced by their rank in the
+    byte-wise lexicographic order of all strings of the scenario, so that the specification compares integers."""
+    events = list(events)
+    # per scenario string ranks
+    out = []
+    k = 0
+    while k < len(events):
+        j = k + 1
+        while j < len(events) and events[j]["ev"] != "Reset":
+            j += 1
+        chunk = events[k:j]
+        names = set()
+        for e in chunk:
+            if e["ev"] == "WriteF":
+                names.add(e["name"])
+            elif e["ev"] == "TakeF":
+                names.update(s["name"] for s in e["samples"])
+            elif e["ev"] == "CftReaders" and e.get("field") == "name":
+                names.add(e["params"][0])
+        rank = {s: n for n, s in enumerate(sorted(names, key=lambda x: x.encode()))}
+        field = None
+        for e in chunk:
+            ev = e["ev"]
+            t = us(e.get("t", 0))
+            if ev == "Reset":
+                out.append({"ev": "Reset", "t": 0})
+            elif ev == "CftReaders":
+                field = e["field"]
+                p = e["params"][0]
+                out.append({"ev": "CftReaders", "t": t, "ok": 1 if e["res"] == "Ok" else 0, "op": e["op"],
+                            "param": rank[p] if field == "name" else int(p)})
+            elif ev == "WriteF":
+                f = {"val": e["val"], "id": e["id"], "name": rank.get(e["name"], -1)}
+                out.append({"ev": "WriteF", "t": t, "seq": e["seq"], "ok": 1 if e["res"] == "Ok" else 0, "val": f["val"], "id": f["id"], "name": f["name"]})
+            elif ev == "TakeF":
+                out.append({"ev": "TakeF", "t": t, "which": e["which"], "final": 1 if e.get("final") else 0, "ok": 1 if e["res"] in ("Ok", "NoData") else 0,
+                            "samples": [{"seq": s["seq"], "val": s["val"], "id": s["id"], "name": rank.get(s["name"], -1)} for s in e["samples"]],
+                            "field": field or "val"})
+            elif ev == "SimError":
+                out.append({"ev": "SimError", "t": 0, "err": e["err"]})
+        k = j
+    return out
